@@ -127,6 +127,8 @@ def run(prog, world, sem, rep):
     rep.rule("C10.b", "storage cells holding principals are written only by instantiate and by their designated guarded variants", 28)
     rep.rule("C10.c", "two-step ownership: the owner field is only assigned from the nominee cell in the nominee-guarded arm; "
              "the nominee cell only from the message in the owner-guarded arm; no other writer changes the owner field", 26)
+    rep.rule("C10.f", "ownership messages always take effect: no success exit of SetOwner without the nominee cell having been written, none of "
+             "AcceptOwnership without the owner field having been written (a silently skipped update leaves a withdrawn nominee able to accept)", 8)
     rep.rule("C10.d", "hub token addresses are write-once: every write of Config.{bsei,stsei}_token_contract either preserves the "
              "stored value or is reachable only when is_some() on that field was observed false", 16)
     rep.rule("C10.e", "token instantiate wires minter and hub cell to msg.hub_contract; cw20-legacy never reassigns TokenInfo.mint", 7)
@@ -221,6 +223,27 @@ def run(prog, world, sem, rep):
                     ok = v == "SetOwner" and fl is not None and fl[0] == "param" and "new_owner_addr" in fl[4]
                     rep.ob("C10.c", "%s::%s nominee := msg.new_owner_addr" % (c, v), ok,
                            "nominee cell written with %s by variant %s" % (fl, v), where(vis.body, bb))
+
+    # C10.f ownership messages always take effect
+    from .common import arm_handler
+    for c, (cfg, ofield, ncell, nfield) in OWNERSHIP.items():
+        for v, cell in (("SetOwner", ncell), ("AcceptOwnership", cfg)):
+            visits, eff = per_variant_writes[(c, v)]
+            h = arm_handler(sem, visits)
+            sites = set()
+            for (vis, bb, kind, cell2, key, val, e) in eff:
+                if cell2 == cell and kind in ("write", "update"):
+                    lv, lbb = vis, bb
+                    while lv is not h and lv.parent is not None:
+                        lv, lbb = lv.parent
+                    if lv is h:
+                        sites.add(lbb)
+            oks = [bb for (bb, idx, kind, x) in sem.ret_sites(h.be) if kind in ("ok", "libcall", "unknown") and bb in h.blocks]
+            r = h.be.cfg.reach([0], stop=sites)
+            skipped = [bb for bb in oks if bb in r and bb not in sites]
+            rep.ob("C10.f", "%s::%s always writes %s" % (c, v, cell.split("::")[-1]), bool(sites) and bool(oks) and not skipped,
+                   "%s can succeed without writing %s (success exit at line %s reachable around the write)" % (v, cell, [h.body.blocks[b].term.line for b in skipped])
+                   if skipped or not sites else "every success exit passes the write", where(h.body), key="C10.f | %s::%s" % (c, v))
 
     # C10.d token addresses write-once
     for fld in ("bsei_token_contract", "stsei_token_contract"):
